@@ -171,6 +171,9 @@ impl Run {
 
 /// run a closure, mapping a panic to None (the default panic hook is silenced once)
 pub fn quiet_panics() {
+    if std::env::var("VERIF_LOUD").is_ok() {
+        return;
+    }
     std::panic::set_hook(Box::new(|_| {}));
 }
 pub fn catch<T>(f: impl FnOnce() -> T + std::panic::UnwindSafe) -> Option<T> {
